@@ -625,12 +625,31 @@ class World:
         fi, pi, qi, ri = self._env_indices(op, ms[0])
         flow, path = self.flows[fi], self.paths[pi]
         rf = self.regime_fields[ri] if ri is not None else None
-        cb = Callbacks(flow, path, self.tr, rf)
+        fault = copy.deepcopy(op.get("fault")) if op.get("fault") else None
+        if fault is not None and fault.get("placement", "mod") == "mod":
+            # instants are counted over the whole bulk call (all minerals share the callables):
+            # dry-run the bulk call on deep copies to learn the number of callback calls
+            twins = [copy.deepcopy(m.obj) for m in ms]
+            cb0 = Callbacks(flow, path, self.tr, rf)
+            t0d, t1d = self.tr.t_of_tau(op["t0"]), self.tr.t_of_tau(op["t1"])
+            kwd = dict(self.solver_kwargs())
+            fsfd = kwd.pop("first_step_frac", None)
+            if fsfd is not None:
+                kwd["first_step"] = abs(t1d - t0d) * fsfd
+            try:
+                pydrex.update_all(twins, self.paramsets[qi], lead.F.copy(), cb0.L, (t0d, t1d, cb0.pos),
+                                  get_regime=cb0.regime if rf is not None else None, **kwd)
+            except Exception:  # noqa: BLE001
+                pass
+            N = {"L_raises": cb0.nL, "position_raises": cb0.nP}.get(fault["kind"], cb0.nL)
+            if N:
+                fault["at_call"] = fault["at_call"] % N
+        cb = Callbacks(flow, path, self.tr, rf, fault)
         F_in = lead.F.copy()
         n_before = [(len(m.obj.orientations), len(m.obj.fractions)) for m in ms]
         regimes_before = {m.idx: m.obj.regime for m in ms}
         rec = {"i": i, "op": "update_all", "ms": list(op["ms"]), "t0": op["t0"], "t1": op["t1"],
-               "fault": None}
+               "fault": fault["kind"] if fault else None}
         t0, t1 = self.tr.t_of_tau(op["t0"]), self.tr.t_of_tau(op["t1"])
         kw = dict(self.solver_kwargs())
         fsf = kw.pop("first_step_frac", None)
@@ -654,8 +673,19 @@ class World:
         rec.update(F_in=F_in, F_out=None if F_out is None else np.array(F_out, copy=True),
                    n_before=n_before,
                    n_after=[(len(m.obj.orientations), len(m.obj.fractions)) for m in ms],
-                   nL=cb.nL, nP=cb.nP, nR=cb.nR, steps=cnt.get("steps", 0), fired=False,
+                   nL=cb.nL, nP=cb.nP, nR=cb.nR, steps=cnt.get("steps", 0), fired=cb.fired,
                    flow=fi, path=pi, params=qi, regime_field=ri, L_nonzero_seen=cb.saw_nonzero_L)
+        if rec["status"] != "ok":
+            # minerals updated before the failing one have completed their update
+            eps = self.strain_over(flow, path, op["t0"], op["t1"])
+            md = int(pydrex.DeformationRegime.matrix_diffusion)
+            for m, nb in zip(ms, n_before):
+                if len(m.obj.orientations) == nb[0] + 1 and len(m.obj.fractions) == nb[1] + 1:
+                    m.completed += 1
+                    m.strain += eps
+                    if (rf is None and int(regimes_before[m.idx]) == md) or (
+                            rf is not None and md in self._regimes_in(rf, op["t0"], op["t1"])):
+                        m.diffusion_strain += eps
         if rec["status"] == "ok":
             eps = self.strain_over(flow, path, op["t0"], op["t1"])
             rec["strain"] = eps
